@@ -424,6 +424,15 @@ class TrajectoryConstraintsRemover(engines.engine.Engine, CompilerMixin):
         disjunction = []
         for eff in action.effects:
             cond = eff.condition
+            if not eff.value.is_constant():
+                # f := v with a non-constant Boolean v makes f true iff v holds
+                # and false iff v does not hold
+                em = env.expression_manager
+                if literal == eff.fluent:
+                    disjunction.append(em.And(cond, eff.value))
+                elif literal == em.Not(eff.fluent):
+                    disjunction.append(em.And(cond, em.Not(eff.value)))
+                continue
             if eff.value.is_false():
                 eff = env.expression_manager.Not(eff.fluent)
             else:
